@@ -139,6 +139,57 @@ def gen_macro_files(rnd):
     return "\n".join(body) + "\n", "\n".join(defs(4, "fI")) + "\n", "\n".join(vec) + "\n", "\n".join(patches) + "\n"
 
 
+def ref_cleanup(h: str, inc: str, vec: str) -> list[str]:
+    """REFERENCE for cleanup_macros on the generated macro files (whose conditional structure is known: QEMU_GENERATE blocks are skipped
+    up to their #else / #endif except in the vector file, CONFIG_USER_ONLY blocks are skipped, other guards and includes are dropped):
+    physical lines are joined at backslash-newline FIRST, comments are removed as C does (translation phases 2 and 3), then the
+    #define lines of the active regions are collected.  Each macro is returned with normalised white space."""
+    out = []
+    for txt, is_vec in ((inc, False), (h, False), (vec, True)):
+        logical, cur = [], ""
+        for line in txt.split("\n"):
+            if re.search(r"\\\s*$", line):
+                cur += re.sub(r"\\\s*$", " ", line)
+            else:
+                logical.append(cur + line)
+                cur = ""
+        in_gen = in_user = False
+        in_block = False
+        for l in logical:
+            if in_block:                       # inside a multi-line block comment
+                if "*/" in l:
+                    in_block = False
+                continue
+            st = l.strip()
+            if st.startswith("/*") and "*/" not in st:
+                in_block = True
+                continue
+            if re.match(r"#ifdef QEMU_GENERATE", l):
+                in_gen = True
+                continue
+            if re.match(r"#ifdef CONFIG_USER_ONLY", l):
+                in_user = True
+                continue
+            if re.match(r"#ifndef|#ifdef|#include", l):
+                continue
+            if re.match(r"#else|#endif", l):
+                in_gen = in_user = False
+                continue
+            if (in_gen and not is_vec) or in_user:
+                continue
+            l2 = re.sub(r"/\*.*?\*/", " ", l)
+            l2 = re.sub(r"//.*$", "", l2)
+            if l2.strip().startswith("#define"):
+                out.append(" ".join(l2.split()))
+    return out
+
+
+def norm_define(l: str) -> str:
+    l = re.sub(r"/\*.*?\*/", " ", l)
+    l = re.sub(r"//.*$", "", l)
+    return " ".join(l.split())
+
+
 def patch_oracle(py) -> str | None:
     """the property's own statement on the real result of cleanup_macros / patch_macros"""
     if "clean" not in py or "patched" not in py:
@@ -284,6 +335,16 @@ def run(tier):
                 why = patch_oracle(py)
                 if why:
                     fails.append({"what": why, "input": {"macros.h": h, "patches_macros.h": pat}})
+                # cleanup_macros against the reference: the same macros, the same bodies up to comments and white space
+                if "clean" in py:
+                    got = [x for x in (norm_define(y) for y in py["clean"]) if x]      # (comment-only lines of the kept regions normalise to nothing)
+                    want = ref_cleanup(h, inc, vec)
+                    if got != want:
+                        k_ = next((j for j, (a_, b_) in enumerate(zip(got, want)) if a_ != b_), min(len(got), len(want)))
+                        fails.append({"what": "cleanup_macros does not return the macro definitions of the active regions of the macro files (continuation lines joined, "
+                                              "comments removed): standard preprocessing of the instruction definitions under this macro set gives another result",
+                                      "input": {"macros.h": h, "macros.inc": inc, "macros_mmvec.h": vec},
+                                      "first_difference": {"cleanup_macros": got[k_] if k_ < len(got) else None, "reference": want[k_] if k_ < len(want) else None}})
             except Exception as e:
                 broken.append(Broken("correspondence", "K5 generated macro sets", str(e)[-800:]))
                 break
